@@ -26,6 +26,15 @@ def _analysis(ctx, q, W):
     return cache[q]
 
 
+def _is_scientific(lf):
+    """the path returns (a stripped / justified form of) a scientific helper's result"""
+    from .c12_str import Param as _P
+    if lf.kind != "return":
+        return False
+    nodes = list(walk_value(lf.value))
+    return any(isinstance(n, CallS) and n.name in SCI for n in nodes) and not any(isinstance(n, Fmt) and isinstance(n.arg, _P) for n in nodes)
+
+
 def _regtxt(reg):
     side = "-" if reg.neg else ""
     if reg.carry_upto < 0:
@@ -50,6 +59,11 @@ def r1_ladder(ctx):
                 # values that round up to 10^k at that precision may go to the scientific form (they are the next decade's business)
                 notfixed = [lf for lf, reg, fm, im in cov if fm is None and reg.carry_upto < pk]
                 cov = [c for c in cov if c[2] is not None]
+                unknown = [lf for lf in notfixed if not _is_scientific(lf)]
+                if unknown:
+                    ctx.error(f"{tag}: a path renders the value in a form that is not modelled", unknown[0].node,
+                              [describe(lf.value) if lf.kind == "return" else lf.kind for lf in unknown][:4])
+                    continue
                 ok = bool(cov) and not notfixed
                 ctx.check(ok, f"{tag}: rendered in fixed notation (more significant digits than the scientific form) on every path", where,
                           None if ok else {"paths": [describe(lf.value) if lf.kind == "return" else lf.kind for lf in notfixed][:4]})
@@ -57,9 +71,9 @@ def r1_ladder(ctx):
                 bad = []
                 for lf, reg, fm, im in gen:
                     for m, f in zip(im or [None], fm or [None]):
-                        if m is None or f is None or m.width != W or f.width != W or m.corrupt or m.lossy or f.corrupt:
+                        if m is None or f is None or m.width != W or f.width != W or m.corrupt or m.lossy or f.corrupt or m.P != pk or m.pad_l or m.pad_r:
                             bad.append({"rendering": describe(lf.value), "columns before justification": getattr(m, "width", None),
-                                        "final columns": getattr(f, "width", None), "problem": (m.corrupt or ("digits cut" if m.lossy else "")) if m else "not modelled"})
+                                        "final columns": getattr(f, "width", None), "decimals": getattr(m, "P", None), "room for": pk, "problem": (m.corrupt or ("digits cut" if m.lossy else "")) if m else "not modelled"})
                 ok = bool(gen) and not bad
                 ctx.check(ok, f"{tag}: sign + digits + point + precision (minus a stripped leading zero) = {W} exactly, i.e. maximal precision "
                               f"and exact field width", where, None if ok else bad[:3])
@@ -137,11 +151,7 @@ def r2b_paths(ctx):
             for nnode in walk_value(lf.value):
                 if isinstance(nnode, Strip) and nnode.side in ("b", "r") and nnode.chars and "0" in nnode.chars \
                         and any(isinstance(x, CallS) and x.name in SCI for x in walk_value(nnode.s)):
-                    ks = set()
-                    for neg in (False, True):
-                        rng = _abs_range(lf.iv, neg)
-                        if rng is not None:
-                            ks.update(decades(rng))
+                    ks = {k for neg, k in A.feasible_decades(lf)}
                     badk = sorted(k for k in ks if (k - 1) % 10 == 0)
                     ok = not badk
                     ctx.check(ok, f"{what}: zeros are stripped from a scientific field only where its exponent cannot end in 0", lf.node,
@@ -158,41 +168,46 @@ def r2_scientific(ctx):
         if not fn.args.args:
             raise AnchorError(f"{q}: parameter")
         firsts, finals = set(), {}
-        for label, iv, neg, small in SCI_INTERVALS:
-            for e in (1, 2, 3):
+        for label, iv, neg, small, expzero in SCI_INTERVALS:
+            for e in ((1,) if expzero else (1, 2, 3)):
                 run = SciRun(ctx, q, label, iv, neg, small, e)
                 rets = [lf for lf in run.leaves if lf.kind == "return"]
                 tag = f"{q} ({label}, {e}-digit exponent)"
-                if len(rets) != 1 or rets[0].state.facts:
-                    ctx.error(f"{tag}: a single decided path", fn, [describe(lf.value) for lf in rets][:4])
+                distinct = []
+                for lf in rets:
+                    if lf.value not in [d.value for d in distinct]:
+                        distinct.append(lf)
+                if not rets or (len(distinct) > 1 and not expzero):
+                    ctx.error(f"{tag}: one rendering per sign and exponent length", fn, [describe(lf.value) for lf in rets][:4])
                     continue
-                v = rets[0].value
-                node = rets[0].node
-                inner = inner_of(v)
-                wi, wc, wf = run.width(inner, False), run.width(inner, True), run.width(v, False)
-                if wi is None or wf is None:
-                    ctx.error(f"{tag}: rendering `{describe(v)}` is not modelled", node)
-                    continue
-                ok = wi == W and wf == W
-                ctx.check(ok, f"{tag}: mantissa + {'D + ' if extra else ''}sign + exponent digits fill exactly {W} characters", node,
-                          None if ok else {"characters": wi, "after justification": wf, "rendering": describe(v)})
-                okc = wc is not None and wc <= W
-                ctx.check(okc, f"{tag}: a mantissa that rounds up to 10 still fits (its zeros are stripped)", node,
-                          None if okc else {"characters": wc}, nontrivial=False)
-                ps = run.mantissa_precision(v)
-                ok = len(ps) == 1 and min(ps) >= 0
-                ctx.check(ok, f"{tag}: mantissa precision is non-negative", node, sorted(ps), nontrivial=False)
-                if len(ps) == 1:
-                    finals[(neg, e)] = min(ps)
-                firsts |= first_stage_precision(v, run.param)
-                if e == 1:
-                    pcs = run.pieces(v)
-                    kinds = [k for k, _ in pcs]
-                    lits = "".join(t for k, t in pcs if k == "lit")
-                    want = extra + ("-" if small else "+")
-                    ok = kinds == ["mantissa", "lit", "exp"] and lits == want
-                    ctx.check(ok, f"{tag}: field = mantissa + {want!r} + exponent digits (exponent sign '-' exactly when |value| < 1)", node,
-                              None if ok else {"pieces": [(k, t if k == "lit" else describe(t)) for k, t in pcs]})
+                for rl in distinct:
+                    v = rl.value
+                    node = rl.node
+                    inner = inner_of(v)
+                    wi, wc, wf = run.width(inner, False), run.width(inner, True), run.width(v, False)
+                    if wi is None or wf is None:
+                        ctx.error(f"{tag}: rendering `{describe(v)}` is not modelled", node)
+                        continue
+                    ok = wi == W and wf == W
+                    ctx.check(ok, f"{tag}: mantissa + {'D + ' if extra else ''}sign + exponent digits fill exactly {W} characters", node,
+                              None if ok else {"characters": wi, "after justification": wf, "rendering": describe(v)})
+                    okc = wc is not None and wc <= W
+                    ctx.check(okc, f"{tag}: a mantissa that rounds up to 10 still fits (its zeros are stripped)", node,
+                              None if okc else {"characters": wc}, nontrivial=False)
+                    ps = run.mantissa_precision(v)
+                    ok = len(ps) == 1 and min(ps) >= 0
+                    ctx.check(ok, f"{tag}: mantissa precision is non-negative", node, sorted(ps), nontrivial=False)
+                    if len(ps) == 1:
+                        finals[(neg, e)] = min(ps)
+                    firsts |= first_stage_precision(v, run.param)
+                    if e == 1:
+                        pcs = run.pieces(v)
+                        kinds = [k for k, _ in pcs]
+                        lits = "".join(t for k, t in pcs if k == "lit")
+                        want = extra + ("-" if small else "+")
+                        ok = kinds == ["mantissa", "lit", "exp"] and (lits == want or (expzero and lits in (extra + "-", extra + "+")))
+                        ctx.check(ok, f"{tag}: field = mantissa + {want!r} + exponent digits (exponent sign '-' exactly when |value| < 1)", node,
+                                  None if ok else {"pieces": [(k, t if k == "lit" else describe(t)) for k, t in pcs]})
         ctx.check(len(firsts) <= 1, f"{q}: first-stage scientific rendering found", fn, sorted(firsts), nontrivial=False)
         if len(firsts) == 1 and finals:
             first = min(firsts)
@@ -205,6 +220,7 @@ def r2_scientific(ctx):
         from .c12_exec import Interval
         z = SciRun(ctx, q, "zero", Interval(Fraction(0), True, Fraction(0), True), False, True, 1)
         rets = [lf for lf in z.leaves if lf.kind == "return"]
+        rets = rets[:1] if rets and all(lf.value == rets[0].value for lf in rets) else rets
         okz = len(rets) == 1 and isinstance(rets[0].value, Lit) and len(rets[0].value.s) == W and rets[0].value.s.strip().startswith("0.")
         ctx.check(okz, f"{q}: zero is rendered in exactly {W} characters", rets[0].node if rets else fn,
                   None if okz else [describe(lf.value) for lf in rets])
